@@ -425,6 +425,10 @@ where
 
     // Compute the post order of all vertices in the graph
     pub fn compute_post_order(&self, root: usize) -> Result<Vec<usize>, Error> {
+        if !self.has_vertex(root) {
+            return Err(Error::GraphVertexNotFound(root));
+        }
+
         let mut visited: FxHashSet<usize> = FxHashSet::default();
         let mut order: Vec<usize> = Vec::new();
 
